@@ -15,6 +15,10 @@ import torch.nn as nn
 import torch.nn.functional as F
 from plinio.methods.pit.pit import PIT
 from plinio.methods.pit.nn.module import PITModule
+from plinio.methods.pit.nn.conv1d import PITConv1d
+from plinio.methods.pit.nn.features_masker import PITFeaturesMasker
+from plinio.methods.pit.nn.timestep_masker import PITTimestepMasker
+from plinio.methods.pit.nn.dilation_masker import PITDilationMasker
 
 
 class Chain(nn.Module):
@@ -134,6 +138,18 @@ class Depthwise1d(nn.Module):
         return self.head(self.dw1(self.dw0(self.c0(x))))
 
 
+class UserPlaced(nn.Module):
+    """a searchable layer placed by the user (with its own masker), followed by a BatchNorm, then a plain layer"""
+    def __init__(self):
+        super().__init__()
+        self.c0 = PITConv1d(nn.Conv1d(2, 2, 1), PITFeaturesMasker(2), PITTimestepMasker(1), PITDilationMasker(1))
+        self.bn = nn.BatchNorm1d(2)
+        self.c1 = nn.Conv1d(2, 1, 1)
+
+    def forward(self, x):
+        return self.c1(self.bn(self.c0(x)))
+
+
 class Activated(nn.Module):
     """an element-wise op between the last layer and the output: the last layer is still tied to the output"""
     def __init__(self):
@@ -156,6 +172,7 @@ NETS = {
     'concat-fixed': (ConcatFixed, (1, 2, 2), {'head': 'frozen'}, {'head': [2, 3]}),
     'concat-time': (ConcatTime, (1, 2, 2), {'c0': 'free', 'c1': '=c0', 'head': 'frozen'}, {'c0': None, 'c1': None, 'head': ['c0']}),
     'depthwise1d': (Depthwise1d, (1, 2, 2), {'c0': 'free', 'dw0': '=c0', 'dw1': '=c0', 'head': 'frozen'}, {'c0': None, 'dw0': ['c0'], 'dw1': ['c0'], 'head': ['c0']}),
+    'user-placed': (UserPlaced, (1, 2, 2), {'c0': 'free'}, {'c0': None, 'c1': ['c0']}),
     'temporal': (Temporal, (1, 1, 4), {'c0': 'free', 'tc': 'free', 'head': 'frozen'}, {'c0': None, 'tc': ['c0'], 'head': ['tc']}),
 }
 
@@ -168,6 +185,8 @@ def _symbolic_state(H, net):
     """every parameter and every BatchNorm statistic of the user's network is an arbitrary real"""
     vals = {}
     for n, p in net.named_parameters():
+        if 'masker' in n:
+            continue                      # masks of user-placed searchable layers stay open, as the statement of C07 says
         t = H.tensor('w.' + n, H.shape(p))
         H.set_(p, t)
         vals[n] = H.elements(t)
@@ -188,7 +207,7 @@ def _graph_facts(H, model):
     H.observe('calculators', [(n, H.type_name(m.input_features_calculator)) for n, m in mod.named_modules() if isinstance(m, PITModule) and hasattr(m, 'out_features_masker')])
 
 
-def h_import(H, net, training, fold_bn):
+def h_import(H, net, training, fold_bn, autoconvert=True):
     """C07 on whole models: PIT(model) computes the function of `model` (eval mode) and leaves the user's model as it found it"""
     cls, shape, maskers, feeds = NETS[net]
     user = cls()
@@ -198,31 +217,34 @@ def h_import(H, net, training, fold_bn):
     y0 = user(x)
     user.train(training)
     flags = [m.training for m in user.modules()]
-    model = PIT(user, input_example=torch.zeros(*shape), fold_bn=fold_bn, **PIT_KWARGS.get(net, {}))
+    model = PIT(user, input_example=torch.zeros(*shape), fold_bn=fold_bn, autoconvert_layers=autoconvert, **PIT_KWARGS.get(net, {}))
     _graph_facts(H, model)
-    H.ensure('import:user-model-keeps-its-training-mode', [m.training for m in user.modules()] == flags)
-    H.ensure('import:wrapper-keeps-the-training-mode-it-found', all(m.training == training for m in model.modules()))
+    H.ensure('[C07] import:user-model-keeps-its-training-mode', [m.training for m in user.modules()] == flags)
+    H.ensure('[C07] import:wrapper-keeps-the-training-mode-it-found', all(m.training == training for m in model.modules()))
     now = dict(list(user.named_parameters()) + list(user.named_buffers()))
-    H.ensure('import:user-parameters-and-statistics-untouched', all(H.eq(H.elements(now[k]), v) for k, v in vals.items()))
+    H.ensure('[C07] import:user-parameters-and-statistics-untouched', all(H.eq(H.elements(now[k]), v) for k, v in vals.items()))
     model.eval()
     y1 = model(x)
     H.observe('y0', y0)
     H.observe('y1', y1)
-    H.ensure('import:wrapped-model-computes-the-original-function', H.eq(y0, y1))
+    H.ensure('[C07] import:wrapped-model-computes-the-original-function', H.eq(y0, y1))
+    user.eval()
+    H.ensure('[C07] import:user-model-still-computes-the-original-function', H.eq(user(x), y0))
+    user.train(training)
     layers = dict(model.seed.named_modules())
     for name, kind in maskers.items():
         m = layers[name].out_features_masker
         if kind[0] == '=':
-            H.ensure('import:layers-that-must-agree-share-one-width-mask', H.same_object(m, layers[kind[1:]].out_features_masker))
+            H.ensure('[C08,C11,C09] import:layers-that-must-agree-share-one-width-mask', H.same_object(m, layers[kind[1:]].out_features_masker))
         else:
-            H.ensure('import:widths-tied-to-network-inputs-or-outputs-are-frozen-others-searchable',
+            H.ensure('[C08,C11,C09] import:widths-tied-to-network-inputs-or-outputs-are-frozen-others-searchable',
                      H.type_name(m) == ('PITFrozenFeaturesMasker' if kind == 'frozen' else 'PITFeaturesMasker'))
     # exporting immediately gives back the original architecture
     exported = model.export()
     for n, m in exported.named_modules():
         if H.type_name(m) in ('Conv1d', 'Conv2d', 'Linear'):
             o = dict(user.named_modules())[n]
-            H.ensure('import:export-immediately-returns-the-original-layer-sizes', H.shape(m.weight) == H.shape(o.weight))
+            H.ensure('[C07] import:export-immediately-returns-the-original-layer-sizes', H.shape(m.weight) == H.shape(o.weight))
 
 
 def _alive(H, layer):
@@ -308,8 +330,10 @@ _FUNCS = [_P + 'pit.py::PIT.__init__', _P + 'pit.py::PIT.export', _P + 'graph.py
 HARNESSES = [
     dict(name='whole-import', fn='h_import', property=['C07', 'C08', 'C11'], functions=_FUNCS,
          quick=[dict(net=n, training=t, fold_bn=f) for n, t, f in (('chain', True, False), ('chain', False, True), ('residual', True, False), ('residual-input', False, False),
-                                                                   ('concat', True, False), ('depthwise2d', False, False), ('activated', True, False), ('temporal', True, False), ('concat-fixed', False, False), ('concat-time', True, False), ('depthwise1d', False, False))],
-         thorough=[dict(net=n, training=t, fold_bn=f) for n in NETS for t in _B for f in _B], timeout=120),
+                                                                   ('concat', True, False), ('depthwise2d', False, False), ('activated', True, False), ('temporal', True, False), ('concat-fixed', False, False), ('concat-time', True, False), ('depthwise1d', False, False))] +
+               [dict(net='user-placed', training=False, fold_bn=f, autoconvert=a) for f in _B for a in _B],
+         thorough=[dict(net=n, training=t, fold_bn=f) for n in NETS for t in _B for f in _B] +
+                  [dict(net='user-placed', training=t, fold_bn=f, autoconvert=False) for f in _B for t in _B], timeout=120),
     dict(name='whole-search-export', fn='h_search_export', property=['C01', 'C09', 'C08', 'C18', 'C04'], functions=_FUNCS,
          quick=[dict(net=n) for n in NETS], thorough=[dict(net=n) for n in NETS], timeout=120),
 ]
